@@ -691,6 +691,44 @@ fn run(case: &Case, ctx: &mut Ctx) {
             }
             Ok(Ok(d)) => d,
         };
+        // the document must not depend on the writer (block-structured short writes)
+        if round == 0 {
+            let other = catch(|| {
+                struct Block(std::rc::Rc<std::cell::RefCell<Vec<u8>>>);
+                impl std::io::Write for Block {
+                    fn write(&mut self, b: &[u8]) -> std::io::Result<usize> {
+                        let mut v = self.0.borrow_mut();
+                        let n = b.len().min(19 - v.len() % 19);
+                        v.extend_from_slice(&b[..n]);
+                        Ok(n)
+                    }
+                    fn flush(&mut self) -> std::io::Result<()> {
+                        Ok(())
+                    }
+                }
+                let sink = std::rc::Rc::new(std::cell::RefCell::new(vec![]));
+                let r = {
+                    let mut ser = RdfXmlSerializer::new_with_config(Block(sink.clone()), RdfXmlConfig::new().with_indentation(k));
+                    ser.serialize_graph(&g).map(|_| ()).map_err(|e| e.to_string())
+                };
+                let got = sink.borrow().clone();
+                (r, got)
+            });
+            match other {
+                Ok((Ok(()), got)) if got == doc.as_bytes() => {}
+                Ok((r, got)) => {
+                    ctx.fail(
+                        "xml/output-depends-on-writer".to_string(),
+                        format!("a writer doing short writes received {} bytes ({r:?}), the stringifier produced {}\ninput:\n{}", got.len(), doc.len(), show_quads(ts)),
+                    );
+                    return;
+                }
+                Err(p) => {
+                    ctx.fail("xml/output-depends-on-writer".to_string(), format!("serialising to a writer doing short writes panicked: {p}"));
+                    return;
+                }
+            }
+        }
         outcomes.push(true);
         ctx.class("outcome:ok");
         if doc.contains('\r') {
